@@ -592,6 +592,27 @@ def make_breaker(env: Env, spec: dict) -> SpyBreaker:
     return SpyBreaker(env, real)
 
 
+def direct_breaker_op(env: Env, op: list) -> None:
+    """Direct use of the shared breaker between policy calls (recorded as ('direct', ...) + brk events)."""
+    b = env.breaker
+    if b is None:
+        return
+    kind = op[0]
+    env.trace.append(("direct", list(op), env.now()))
+    if kind == "adv":
+        env.clock.t += g(op[1])
+    elif kind == "allow":
+        b.allow()
+    elif kind == "succ":
+        b.record_success()
+    elif kind == "fail":
+        b.record_failure(ErrorClass[op[1]])
+    elif kind == "cancel":
+        b.record_cancel()
+    else:
+        raise HarnessError(f"unknown direct op {op!r}")
+
+
 def make_budget(env: Env, spec: dict) -> Budget:
     """Budget pre-filled with grants made `age` ticks before the start of the case."""
     b = Budget(max_retries=spec["max"], window_s=g(spec["window"]))
@@ -773,8 +794,13 @@ def run_case(
             env.budget = make_budget(env, cfg["budget"])
         if cfg.get("breaker") is not None and env.breaker is None:
             env.breaker = make_breaker(env, cfg["breaker"])
-        runner = build_entry(env, e, cfg, placement)
+        entries = case.get("entries")
+        if entries:
+            runners = [build_entry(env, parse_entry(x), cfg, placement) for x in entries]
+        else:
+            runners = [build_entry(env, e, cfg, placement)]
         for j, call in enumerate(calls):
+            runner = runners[j % len(runners)]
             env.call = call
             env.call_idx = j
             for k in env.n:
@@ -784,6 +810,8 @@ def run_case(
             env.objs_by_call.append(env.objs)
             if call.get("advance"):
                 env.clock.t += g(call["advance"])
+            for op in call.get("pre_ops") or []:
+                direct_breaker_op(env, op)
             env.call_t0 = env.clock.t
             env.trace.append(("call_begin", j, env.now()))
             try:
